@@ -246,6 +246,20 @@ claim("C13",
       "TLA+ multi-step behaviour specification model-checked by TLC, stepwise stage events recorded from the real code, TLC trace validation with the spec's own actions",
       "DESIGN.md section 4 C13")
 
+claim("C14",
+      "GridGeodesic.tla: InvUTM as the behaviour Grid2Geo; Grid2Geo; Inverse; LineSF, DirUTM as an iteration whose termination "
+      "TLC checks (liveness under weak fairness, contraction abstraction, passes <= 4). Trace_GridGeodesic (TLC) decides on real "
+      "calls: vincinv_utm returns exactly ellipsoidal distance x line scale factor and azimuth + convergence at each end in its own "
+      "zone (bit for bit against the public step functions), line scale factor within 3e-7 of the range of point scale factors along "
+      "the line and within 5e-7 of their Simpson mean up to 100 km, vincdir_utm fed with the inverse's output reproduces the second "
+      "point within 1 mm in the first point's zone also when it was given in the adjacent zone, and EXACTLY: along a central "
+      "meridian between Pythagorean latitudes grid distance = k0 x difference of meridian arcs (MeridianArc), bearings 0/180, line "
+      "scale factor k0; zones 1/30/31/55/60, both hemispheres, latitudes -79..83, eastings 100..900 km, lengths 1 m..100 km, 4 ellipsoids.",
+      "Trusted: TLC, BigFix, MeridianArc. The contraction assumption of the termination model is recorded and the observed number "
+      "of passes (via a wrapper on geodepy.geodesy.vincdir) is reported as evidence only. Lines are a lattice with seeded jitter.",
+      "TLA+ behaviour/iteration specification model-checked by TLC incl. liveness, real call results validated by TLC against stepwise composition and exact central-meridian oracle",
+      "DESIGN.md section 4 C14")
+
 NOT_YET = "check not built yet in this session (work in progress; see DESIGN.md section 8 for build order)"
 
 
